@@ -4,6 +4,7 @@ import math
 import numpy as np
 
 from harness.core import Machinery
+from checks import binding
 
 LEVEL = "model_checking"
 
@@ -96,7 +97,7 @@ def replay_shape(ctx, Grid, c, h, reuse=None):
 
 
 def spec_to_code(ctx, Grid):
-    res = ctx.tlc("GridGeomDump", "MC_GridGeom_%s.cfg" % ctx.tier, workers=8, timeout=1800)
+    res = ctx.tlc("GridGeomDump", "MC_GridGeom_%s.cfg" % ctx.tier, timeout=1800)
     if res.violated:
         raise Machinery("GridGeom.tla: model violates contract: %s" % res.violated)
     cases = res.printed()
@@ -164,9 +165,10 @@ def code_to_spec(ctx, Grid, ngrids):
     with open(path, "w") as f:
         for r in recs:
             f.write(json.dumps(r) + "\n")
-    res = ctx.tlc("GridGeomTrace", "MC_GridGeomTrace.cfg", workers=1, timeout=1800, env={"TRACE_FILE": str(path)})
+    res = ctx.tlc("GridGeomTrace", "MC_GridGeomTrace.cfg", timeout=1800, env={"TRACE_FILE": str(path)})
     if not res.tuples("VALIDATED"):
         raise Machinery("GridGeomTrace did not complete:\n" + res.out[-2500:])
+    ctx.binding_demo("GridGeomTrace", "MC_GridGeomTrace.cfg", path, binding.gridgeom, timeout=1800)
     for line in res.tuples("REJECT"):
         parts = line.strip("<>").split(",")
         r = recs[int(parts[1]) - 1]
